@@ -36,6 +36,13 @@ Proved for all sizes and all rational data about the executable definitions (sec
 * the `while (!feasible)` loop terminates within `n + 1` passes (`block3_inner_terminates`, `block3_exits`); an accepted
   projected step and an accepted unconstrained solve strictly decrease the objective
   (`walk_accepted_step_decreases`, `accepted_solve_decreases`).
+Third round (end of the file): the result loop of `walk_descents` organised in blocks of workers — every trial index
+looked at once, the last-trial test true for exactly one (block, worker) pair, the forced step taken for every worker
+count, the sequential `walkDescents` of the state machine equal to that loop (`walk_trials_visited_once`,
+`walk_last_trial_unique`, `walk_block_loop_sequential`, `walk_forced_step_reachable`, `walkDescents_is_block_loop`), and the
+witness for the multiplier `n_blocks` (`walk_wrong_multiplier_never_steps`); rows added to the full-size factor by
+`modify_factor_p` on the level of the represented matrix and `cholmod_rowadd`'s precondition
+(`modify_factor_add_rows_represents`, `modify_factor_add_rows_order_independent`, `modify_factor_settle_first_breaks_rowadd`).
 Still **not** proved: a decreasing measure for the outer `for` loop of BLOCK3 (the C code stores an unaccepted last
 trial of `walk_descents` and binds coefficients below `kkt_tolerance`, both of which can raise the objective; the cap
 `max_iter` is a real exit), and anything about the floating-point solves of the C code (covered by certificate checking).
